@@ -26,8 +26,9 @@ DECIDED = [
     "TAB-7 every key the dict writer emits is accepted by the dict reader for the same format",
     "ROOT-1 writer, dict reader and RDF reader agree on the root keys 'Document'/'odml-version' and the version constant",
     "SIB-3 JSON and YAML use the same DictWriter/DictReader calls with no format specific transformation",
-    "TRUTH-2 no set-but-falsy attribute (uncertainty 0, empty values) is dropped by a truthiness test",
-    "SER-1 the JSON/YAML serialisers cover date, time and datetime values",
+    "TRUTH-2 no set-but-falsy attribute (uncertainty 0, empty values) is dropped by a truthiness test, neither by the writer nor by the reader",
+    "SER-1 the JSON/YAML serialisers cover date, time and datetime values and are not called with value-narrowing options",
+    "RET-1 (shared with C05) the dtype converters return normal forms",
     "LOOP-1 reader and writer loops carry no state between sibling entries",
     "ORD-3 (dict half) parse_cardinality(list(c)) == c for every normal-form cardinality c",
 ]
@@ -292,6 +293,41 @@ def run(prog, rep):
                       "attributes %s have falsy-but-set values and are dropped by `if %s`" % (sorted(risky.items()), unparse(n.test)[:60]),
                       where(f, n), witness="uncertainty = 0 is None after a JSON/YAML round trip")
 
+    # --------------------------------------------------------------- TRUTH-2 (reader side)
+    rep.rule("TRUTH-2", "reader side: inside the key loops of to_odml / parse_sections / parse_properties (and their private helpers) no "
+                        "branch tests the truthiness of the content of an entry (<entry>[<key>]); only the key decides whether an "
+                        "entry is read - otherwise a set-but-falsy content (uncertainty 0) is dropped on load")
+    for fname, qn in sorted(READER_FUNCS.items()):
+        risky = dict((k, v) for k, v in falsy_set_attributes(prog, fname).items()
+                     if k in set(tabs[fname]["_map"].get(a0, a0) for a0 in tabs[fname]["_args"]) and k not in ("sections", "properties"))
+        n_loops = 0
+        for h in private_closure(prog.func(qn)):
+            for lp in walk_no_nested(h.node):
+                if not (isinstance(lp, ast.For) and isinstance(lp.iter, ast.Name) and isinstance(lp.target, ast.Name)):
+                    continue
+                entry = lp.iter.id
+                uses_key = any(isinstance(y, ast.Subscript) and isinstance(y.value, ast.Name) and y.value.id == entry for y in ast.walk(lp)) or \
+                    any(isinstance(y, ast.Call) and isinstance(y.func, ast.Attribute) and y.func.attr == "is_valid_attribute" and y.args
+                        and unparse(y.args[0]) == lp.target.id for y in ast.walk(lp))
+                if not uses_key:
+                    continue
+                n_loops += 1
+                bad = []
+                for n in ast.walk(lp):
+                    tests = [n.test] if isinstance(n, (ast.If, ast.IfExp, ast.While)) else []
+                    for t0 in tests:
+                        for txt, pol, e0 in truthiness_tests(t0):
+                            if isinstance(e0, ast.Subscript) and isinstance(e0.value, ast.Name) and e0.value.id == entry:
+                                bad.append((n, txt))
+                if not bad:
+                    rep.ok("TRUTH-2", "%s: entries are selected by key only" % h.name, "no truthiness test on <entry>[<key>]", where(h, lp))
+                for n, txt in bad:
+                    rep.check(not risky, "TRUTH-2", "%s: truthiness test on the content `%s`" % (h.name, txt), "no %s attribute has a falsy-but-set value" % fname,
+                              "the %s reader skips an entry when its content `%s` is falsy: %s are set values and are lost on load"
+                              % (fname, txt, sorted(risky)), where(h, n), witness="uncertainty: 0 in a JSON/YAML file loads as None")
+        if fname != "Document":
+            rep.floor("TRUTH-2", n_loops, 1, "key loops of the %s reader" % fname)
+
     # ----------------------------------------------------------------- SER-1
     rep.rule("SER-1", "JSONDateTimeSerializer.default converts datetime.datetime, datetime.date and datetime.time; "
                       "a representer for datetime.time is registered for YAML (PyYAML represents date/datetime natively)")
@@ -314,6 +350,18 @@ def run(prog, rep):
     cls_kw = [c for c in calls_in(ts.node) if call_name(c) == "json.dumps"]
     rep.check(all(any(k.arg == "cls" and unparse(k.value) == "JSONDateTimeSerializer" for k in c.keywords) for c in cls_kw) and cls_kw,
               "SER-1", "json.dumps uses JSONDateTimeSerializer", "ok", "json.dumps is called without the date/time encoder", ts.where)
+
+    # the dump calls must not narrow the accepted value domain
+    NARROWING = {"allow_nan": False, "skipkeys": True, "check_circular": False}
+    for c in [c0 for c0 in calls_in(ts.node) if call_name(c0) in ("json.dumps", "json.dump", "yaml.dump", "yaml.safe_dump")]:
+        narrowing = [k.arg for k in c.keywords if k.arg in NARROWING and isinstance(k.value, ast.Constant) and k.value.value == NARROWING[k.arg]]
+        rep.check(not narrowing, "SER-1", "%s accepts every value the model holds" % call_name(c), "no narrowing option",
+                  "%s is called with %s: values the model accepts (non-finite floats, ...) can no longer be saved" % (call_name(c), narrowing), where(ts, c),
+                  witness="a Property holding float('inf') cannot be saved as JSON")
+
+    # ----------------------------------------------------------------- RET-1 (shared with C05)
+    from .c05 import ret1_rule
+    ret1_rule(prog, rep)
 
     # ---------------------------------------------------------------- LOOP-1
     funcs = []
